@@ -44,10 +44,23 @@ struct Cfg {
   skip_dynamic: bool,
   is_dynamic_root: bool,
   unstable: bool,
+  /// resolver present (bare-specifier map + resolve_types table), npm
+  /// resolver present, jsr passthrough, one configured type import
+  rich: bool,
+}
+
+thread_local! {
+  /// (resolver in use?, what "bare-pkg" maps to)
+  static BARE: std::cell::RefCell<Option<String>> = const { std::cell::RefCell::new(None) };
 }
 
 fn resolve(text: &str, referrer: &ModuleSpecifier) -> Res {
-  // no resolver in use: the crate's documented default resolution
+  if text == "bare-pkg"
+    && let Some(t) = BARE.with(|b| b.borrow().clone())
+  {
+    return Res::Ok(t);
+  }
+  // otherwise the crate's documented default resolution
   match deno_graph::resolve_import(text, referrer) {
     Ok(u) => Res::Ok(u.to_string()),
     Err(_) => Res::Err,
@@ -148,6 +161,11 @@ fn expected_module(w: &World, i: usize, cfg: &Cfg) -> ExpModule {
   {
     let t = w.spec(to);
     types_dep = Some((t.clone(), resolve(&t, &me)));
+  }
+  // the resolver's resolve_types table: untyped modules without any other types dependency
+  if cfg.rich && types && types_dep.is_none() && !typed {
+    let to = (i + 1) % w.kinds.len();
+    types_dep = Some((me.to_string(), Res::Ok(w.spec(to))));
   }
   // ES dependencies in source order
   for e in &my_edges {
@@ -265,6 +283,10 @@ fn expected_closure(w: &World, cfg: &Cfg) -> Option<BTreeSet<String>> {
   let mut present: BTreeSet<String> = BTreeSet::new();
   // (specifier, loaded as asset?)
   let mut work: Vec<(String, bool, Option<String>)> = w.roots().iter().map(|r| (r.to_string(), false, None)).collect();
+  if cfg.rich {
+    // the configured type import is loaded like an attribute-less import
+    work.push((w.spec(w.kinds.len() - 1), false, None));
+  }
   let mut expanded: BTreeSet<usize> = BTreeSet::new();
   let index_of = |s: &str| (0..w.kinds.len()).find(|i| w.spec(*i) == s);
   while let Some((s, as_asset, attr)) = work.pop() {
@@ -351,16 +373,31 @@ fn body(space: Space) -> impl Fn(&Ch) -> Run + Sync + Send {
     let clobber = w.has_source_phase_clobber();
     let mut outcomes = vec![];
     for kind in kind_all() {
-      for (skip_dynamic, is_dynamic_root, unstable) in [(false, false, true), (true, false, true), (false, true, false)] {
+      for (skip_dynamic, is_dynamic_root, unstable, rich) in [(false, false, true, false), (true, false, true, false), (false, true, false, false), (false, false, true, true)] {
+        // the rich configuration needs an attribute-less last specifier (the
+        // configured import is an attribute-less import of it)
+        let n = w.kinds.len();
+        if rich && (w.attrs[n - 1] != Attr::None || w.attrs[w.final_target(n - 1)] != Attr::None) {
+          continue;
+        }
         let cfg = Cfg {
           kind,
           skip_dynamic,
           is_dynamic_root,
           unstable,
+          rich,
         };
+        BARE.with(|b| *b.borrow_mut() = if rich { Some(w.spec(n - 1)) } else { None });
         let sched = Sched::new(SchedMode::Immediate);
         let loader = ScriptedLoader::new(sched);
         w.install(&loader);
+        let resolver = MapResolver {
+          bare: [("bare-pkg".to_string(), w.spec(n - 1))].into_iter().collect(),
+          types: (0..n).filter(|i| matches!(w.kinds[*i], Kind::Js | Kind::Jsx)).map(|i| (w.url(i), w.url((i + 1) % n))).collect(),
+          jsx_import_source: None,
+          jsx_import_source_types: None,
+        };
+        let npm = ScriptedNpmResolver::default();
         let mut g = ModuleGraph::new(kind);
         if build_graph(
           &mut g,
@@ -371,6 +408,14 @@ fn body(space: Space) -> impl Fn(&Ch) -> Run + Sync + Send {
             is_dynamic: is_dynamic_root,
             unstable_bytes: unstable,
             unstable_text: unstable,
+            resolver: if rich { Some(&resolver) } else { None },
+            npm: if rich { Some(&npm) } else { None },
+            passthrough_jsr: rich,
+            imports: if rich {
+              vec![deno_graph::ReferrerImports { referrer: url(&format!("{}deno.json", w.base())), imports: vec![format!("./{}", w.kinds[n - 1].file_name(n - 1))] }]
+            } else {
+              vec![]
+            },
             ..Default::default()
           },
           ch,
@@ -381,9 +426,17 @@ fn body(space: Space) -> impl Fn(&Ch) -> Run + Sync + Send {
           continue;
         }
         run.evals += 1;
-        let case = |extra: Value| json!({"world": w.describe(), "graph_kind": format!("{kind:?}"), "skip_dynamic_deps": skip_dynamic, "is_dynamic": is_dynamic_root, "unstable_text_bytes": unstable, "detail": extra});
+        let case = |extra: Value| json!({"world": w.describe(), "graph_kind": format!("{kind:?}"), "skip_dynamic_deps": skip_dynamic, "is_dynamic": is_dynamic_root, "unstable_text_bytes": unstable, "resolver+npm_resolver+jsr_passthrough+configured_import": rich, "detail": extra});
+        // with the rich configuration the last specifier is also loaded by the
+        // configured import and is what "bare-pkg" resolves to
+        let clobber_rich = rich
+          && w.edges.iter().any(|e| {
+            e.form == Form::ImportSource
+              && w.kinds[n - 1] != Kind::Wasm
+              && (e.dst == Target::Bare || matches!(e.dst, Target::Spec(d) if d == n - 1))
+          });
         let sig = |s: String| {
-          if clobber {
+          if clobber || clobber_rich {
             "source-phase-import-of-loaded-specifier-clobbers-its-slot".to_string()
           } else {
             s
@@ -605,9 +658,9 @@ pub fn prop(tier: Tier) -> Prop {
   };
   Prop {
     id: "C01",
-    rule: "state = world (entry kinds x attribute per target x import edges with form and target x local/remote x x-typescript-types header x 1..2 roots); per world 3 graph kinds x 3 option sets (default, skip_dynamic_deps, dynamic root without unstable text/bytes) are built. Oracle: (1) each JS/TS module's recorded dependencies (specifier text -> code target, type target, is_dynamic, attribute, import kinds) equal what reference rules derive from the renderer's record of the statements it wrote; (2) slots + redirect sources = least closure of the roots under the follow rules of the kind/options, computed over the reference dependencies; (3) one load per specifier (asset->module upgrade excepted), every loader redirect recorded; (4) entry kind where the world determines it. Non-trivial = world with an edge of a non-default form.".into(),
+    rule: "state = world (entry kinds x attribute per target x import edges with form and target x local/remote x x-typescript-types header x 1..2 roots); per world 3 graph kinds x 4 option sets (default; skip_dynamic_deps; dynamic root without unstable text/bytes; resolver + npm resolver + jsr passthrough + configured type import) are built. Oracle: (1) each JS/TS module's recorded dependencies (specifier text -> code target, type target, is_dynamic, attribute, import kinds) equal what reference rules derive from the renderer's record of the statements it wrote; (2) slots + redirect sources = least closure of the roots under the follow rules of the kind/options, computed over the reference dependencies; (3) one load per specifier (asset->module upgrade excepted), every loader redirect recorded; (4) entry kind where the world determines it. Non-trivial = world with an edge of a non-default form.".into(),
     assumptions: vec![
-      "no resolver / npm resolver / jsr passthrough in this version (default resolution); configured type imports are exercised in C02/C15".into(),
+      "the fourth option set has a resolver (bare-specifier map, resolve_types table for untyped modules), an npm resolver, jsr passthrough and one configured type import; the other three use default resolution".into(),
       "same-attribute proviso enforced by the generator (also through redirects, roots, types header, @ts-types pragma); at most one self-types / jsx pragma per module".into(),
       "worlds with loader redirect cycles are left to C14; JSON and unknown-media entries are checked for presence, not for kind (their acceptance depends on how they are first reached - see the C19 finding)".into(),
       "forms: import, side-effect import, export * / named from, import/export type, dynamic import, static+dynamic in both orders, reference path/types, @ts-types, @ts-self-types, JSDoc import, import source, import = require, declare module, import type expression, @jsxImportSource, require()".into(),
